@@ -116,6 +116,13 @@ Fixpoint build_from (k : nat) (s : list A) : list A :=
   end.
 Definition build (s : list A) : list A := build_from (length s / 2) s.
 
+(* ---- the comparator: any strict weak order (irreflexive, transitive, incomparability transitive) ---- *)
+Definition incomparable (a b : A) : Prop := lt a b = false /\ lt b a = false.
+Definition strict_weak_order : Prop :=
+  (forall a, lt a a = false) /\
+  (forall a b c, lt a b = true -> lt b c = true -> lt a c = true) /\
+  (forall a b c, incomparable a b -> incomparable b c -> incomparable a c).
+
 (* ---- heap order: the parent never follows the child ---- *)
 Definition le (a b : A) : Prop := lt b a = false.          (* "b does not precede a" *)
 Definition is_child (p c : nat) : Prop := c = 2 * p + 1 \/ c = 2 * p + 2.
